@@ -7,6 +7,7 @@ use std::sync::atomic::{AtomicU64, Ordering};
 
 thread_local! {
     static LAST_PANIC: RefCell<Option<String>> = const { RefCell::new(None) };
+    static GUARD_DEPTH: std::cell::Cell<u32> = const { std::cell::Cell::new(0) };
 }
 
 /// Install a panic hook that records the message instead of printing it.
@@ -23,6 +24,9 @@ pub fn install_quiet_panic_hook() {
         } else {
             "<non-string panic>".to_string()
         };
+        if GUARD_DEPTH.with(|d| d.get()) == 0 {
+            eprintln!("UNGUARDED PANIC: {msg} @ {loc}");
+        }
         LAST_PANIC.with(|p| *p.borrow_mut() = Some(format!("{msg} @ {loc}")));
     }));
 }
@@ -30,7 +34,10 @@ pub fn install_quiet_panic_hook() {
 /// Run `f`, turning a panic into `Err(message)`.
 pub fn guarded<T>(f: impl FnOnce() -> T) -> Result<T, String> {
     LAST_PANIC.with(|p| *p.borrow_mut() = None);
-    match catch_unwind(AssertUnwindSafe(f)) {
+    GUARD_DEPTH.with(|d| d.set(d.get() + 1));
+    let r = catch_unwind(AssertUnwindSafe(f));
+    GUARD_DEPTH.with(|d| d.set(d.get() - 1));
+    match r {
         Ok(v) => Ok(v),
         Err(_) => Err(LAST_PANIC
             .with(|p| p.borrow_mut().take())
